@@ -167,11 +167,16 @@ type Session struct {
 // StartSession creates the table, seats and joins all players, starts the game and
 // waits for the first set-up. deck may be nil (seeded shuffle from r).
 func StartSession(cfg TableCfg, r *rand.Rand, onEvent func(e *Ev)) (*Session, error) {
+	return StartSessionJ(cfg, r, onEvent, 0, 0)
+}
+
+// StartSessionJ is StartSession with callback jitter (see SimConfig.Jitter).
+func StartSessionJ(cfg TableCfg, r *rand.Rand, onEvent func(e *Ev), jitter float64, jmax time.Duration) (*Session, error) {
 	rig := NewRigBackend()
 	rig.DeckFn = SeededDeck(rand.New(rand.NewSource(r.Int63())))
 	ss := &Session{Rig: rig, Cfg: cfg, OnEvent: onEvent, NextID: len(cfg.Players)}
 	mtt := cfg.Mode == "mtt"
-	s, err := NewSim(SimConfig{Setting: cfg.Setting(mtt), Interval: cfg.Interval, Backend: rig}, r.Int63())
+	s, err := NewSim(SimConfig{Setting: cfg.Setting(mtt), Interval: cfg.Interval, Backend: rig, Jitter: jitter, JitterMax: jmax}, r.Int63())
 	ss.S = s
 	if err != nil {
 		return ss, err
